@@ -397,6 +397,31 @@ def c18_run(ctx):
                     bad = [f for f in ak.fields(res) if f not in COORD_FIELDS]
                     if bad:
                         problems.append((f"binary-extra:{m}", f"binary {m} on {lname} returns non-coordinate fields {bad}"))
+        # boost family: the booster is a secondary argument (like the axis of rotate_axis) - the BOOSTED operand's extra fields are
+        # carried, the booster's never, whatever the relative nesting depth of the two operands (flat by jagged, record by array)
+        if dim == 4:
+            boosted_flat = ak.with_field(C.ak_array(fl, sig, rows[:4]), numpy.array([1.0, -1.0, 1.0, -1.0]), "charge")
+            brows = [C.cart_to_stored(sig2, p_) for p_ in C.strata_points(4, r, n_random=8)[-7:]]
+            booster_j = ak.unflatten(ak.with_field(C.ak_array("g", sig2, brows), numpy.arange(7.0), "q"), [2, 0, 3, 2])
+            b3rows = [[0.1 * x for x in C.cart_to_stored(("xy", "z"), p_)] for p_ in C.strata_points(3, r, n_random=8)[-7:]]
+            booster3_j = ak.unflatten(ak.with_field(C.ak_array("g", ("xy", "z"), b3rows), numpy.arange(7.0), "q"), [2, 0, 3, 2])
+            combos = [("flat.boost_p4(jagged)", lambda: boosted_flat.boost_p4(booster_j), ["charge"]), ("flat.boost(jagged)", lambda: boosted_flat.boost(booster_j), ["charge"]),
+                      ("flat.boost_beta3(jagged3D)", lambda: boosted_flat.boost_beta3(booster3_j), ["charge"]),
+                      ("flat.boostCM_of_p4(jagged)", lambda: boosted_flat.boostCM_of_p4(booster_j), ["charge"]),
+                      ("jagged.boost_p4(flat)", lambda: booster_j.boost_p4(boosted_flat), ["q"]),
+                      ("flat.add(jagged)", lambda: boosted_flat.add(booster_j), [])]
+            for cname, f_, want_extra in combos:
+                n += 1
+                try:
+                    res = f_()
+                except Exception as e:  # noqa: BLE001
+                    problems.append((f"raises:depth:{cname}", f"{cname} ({fl}:{sig} with g:{sig2}): {type(e).__name__}: {str(e)[:80]}"))
+                    continue
+                got_extra = [f for f in ak.fields(res) if f not in COORD_FIELDS]
+                if got_extra != want_extra:
+                    problems.append((f"extra-fields:depth:{cname}", f"{cname} ({fl}:{sig} with g:{sig2}) returns extra fields {got_extra}, expected {want_extra} (only the first operand's, and only for single-vector operations)"))
+                if [len(x) for x in ak.to_list(res[ak.fields(res)[0]])] != [2, 0, 3, 2]:
+                    problems.append((f"structure:depth:{cname}", f"{cname}: list structure {[len(x) for x in ak.to_list(res[ak.fields(res)[0]])]}, expected the broadcast structure [2, 0, 3, 2]"))
         # a record selected from the array behaves like the object
         rec = layouts["jagged"][2][1]
         o = C.obj_vec(fl, sig, rows[4])
@@ -576,6 +601,31 @@ def c19_run(ctx):
                     pk = pickle.loads(pickle.dumps(va))
                     if type(pk) is not vcls or pk.dtype != va.dtype or pk.tobytes() != va.tobytes():
                         problems.append((f"pickle-layout:{lname_}", f"{fl}:{sig}: pickle round trip gives {type(pk).__name__} {pk.dtype}"))
+                    # ufuncs writing into an out= array of this layout (explicitly and through the in-place operators): every
+                    # coordinate of the written array, read BY NAME, equals the coordinate of the functional result
+                    if "tau" not in sig and not lname_.startswith("extra"):     # (with extra fields the unchanged library raises in out=: not a property)
+                        outs = [("numpy.multiply(v, 2.5, out=w)", lambda w_: numpy.multiply(va, 2.5, out=w_), lambda: va * 2.5),
+                                ("numpy.true_divide(v, 4.0, out=w)", lambda w_: numpy.true_divide(va, 4.0, out=w_), lambda: va / 4.0),
+                                ("numpy.add(v, v, out=w)", lambda w_: numpy.add(va, va, out=w_), lambda: va + va),
+                                ("numpy.subtract(v, v2, out=w)", lambda w_: numpy.subtract(va, va[::-1], out=w_), lambda: va - va[::-1]),
+                                ("w *= 2.5", lambda w_: w_.__imul__(2.5), lambda: va * 2.5), ("w /= 4.0", lambda w_: w_.__itruediv__(4.0), lambda: va / 4.0),
+                                ("w += v", lambda w_: w_.__iadd__(va), lambda: va + va)]
+                        for oname, fo, fr in outs:
+                            n += 1
+                            w_ = va.copy()
+                            try:
+                                fo(w_)
+                                ref = fr()
+                            except Exception as ex:  # noqa: BLE001
+                                problems.append((f"out-raises:{lname_}", f"{oname} on {fl}:{sig} fields {[f_ for f_, _ in fields]}: {type(ex).__name__}: {str(ex)[:60]}"))
+                                continue
+                            for cn in ("x", "y") + (("z",) if dim >= 3 else ()) + (("t",) if dim == 4 else ()):
+                                a_, b_ = numpy.asarray(getattr(w_, cn)), numpy.asarray(getattr(ref, cn))
+                                if not numpy.allclose(a_, b_, rtol=1e-12, atol=1e-12):
+                                    problems.append((f"out-layout:{oname.split('(')[0].split()[-1] if '(' in oname else oname}",
+                                                     f"{oname} on {fl}:{sig} with fields {[f_ for f_, _ in fields]}: component {cn} of the written array is {a_.tolist()[:3]}, "
+                                                     f"of the functional result {b_.tolist()[:3]}"))
+                                    break
                 except Exception as ex:  # noqa: BLE001
                     problems.append((f"layout-raises:{lname_}", f"{fl}:{sig} fields {[f_ for f_, _ in fields]}: {type(ex).__name__}: {str(ex)[:80]}"))
             if len(samples) < 2:
